@@ -59,7 +59,8 @@ def icfg : ICfg :=
     cGuardOSError := Gen.C17.ioprioCGuardOSError
     pyClassGuard := Gen.C17.ioprioPyClassGuard
     pyValueRange := Gen.C17.ioprioPyValueRange
-    pyNoValueClasses := Gen.C17.ioprioPyNoValueClasses }
+    pyNoValueClasses := Gen.C17.ioprioPyNoValueClasses
+    units := Gen.C17.ioprioSetUnits.toList }
 
 def ecfg : ECfg := { castUnsigned := Gen.C17.ethSpeedCast }
 
